@@ -117,6 +117,11 @@ func (n *VerifConvergeNode) Check(localIndex uint32, now time.Time) {
 	n.f.connectionManager.doTrafficCheck(localIndex, n.p, n.nb, n.out, now)
 }
 
+// TickAdvance / TickNext are the two halves of the connection manager's timer loop (connectionManager.Start):
+// advance the wheel to `now`, then purge the expired local indexes one by one; the harness calls Check for each.
+func (n *VerifConvergeNode) TickAdvance(now time.Time) { n.f.connectionManager.trafficTimer.Advance(now) }
+func (n *VerifConvergeNode) TickNext() (uint32, bool)  { return n.f.connectionManager.trafficTimer.Purge() }
+
 // ShouldSwap is the real shouldSwapPrimary on the tunnel with that local index (false when unknown).
 func (n *VerifConvergeNode) ShouldSwap(localIndex uint32) bool {
 	hi := n.f.hostMap.QueryIndex(localIndex)
